@@ -350,6 +350,24 @@ def run(tier, seed, workers):
         st.bounds = {tag: dict(st.bounds)}
         states += st.states
         total.merge(st)
+    # larger forests (one long history each, not a search)
+    for n in ((16,) if tier == 'quick' else (16, 60)):
+        model = TreeModel(n, (), True)
+        chain = [('reg', i, i - 1) for i in range(1, n)]                       # a chain 0 <- 1 <- ... <- n-1, bottom-up queues drained by ticks
+        star = [('reg', i, 0) for i in range(1, n)]
+        for shape in (chain, star):
+            hist = list(shape) + [('tick', 0)] * 3 + [('fire', n - 1), ('bfire', n // 2), ('tick', 0), ('tick', 0)]
+            hist += [('unreg', n // 2), ('fire', n // 2), ('tick', 0), ('tick', 0), ('tick', 0), ('tick', n // 2)]
+            hist += [('reg', n // 2, n - 1 if shape is star else 0), ('tick', 0), ('bfire', 0), ('tick', 0), ('unreg', n - 1), ('unreg', 1), ('tick', 0), ('tick', 0), ('tick', 0)]
+            # judged after every prefix of the second half
+            for cutoff in range(len(shape), len(hist) + 1, 3):
+                h = tuple(hist[:cutoff])
+                w = model.build(h)
+                sst = core.Stats()
+                model.check(h, w, sst)
+                sst.samples = []
+                sst.counters['large_forest_histories'] += 1
+                total.merge(sst)
     total.states = states
     if not total.counters['histories_registering_a_component_with_queued_events']:
         total.selfcheck_errors.append('vacuity: no register of a component with queued events')
